@@ -42,6 +42,8 @@ func init() {
 			{ID: "C03-R10", Title: "lexer functions on the error-construction path index only under a length test", Floor: 1, Run: lexerIndexingGuarded},
 			{ID: "C03-R11", Title: "nil-tested fields are not dereferenced outside the test's cover", Floor: 10, Run: fieldNilBelief},
 			{ID: "C03-R12", Title: "parse results are nil-tested before they enter a node", Floor: 10, Run: parseResultsTestedBeforeUse},
+			{ID: "C03-R13", Title: "pointers that may be nil at a merge are tested before use", Floor: 1, Run: maybeNilLocalsAreTested},
+			{ID: "C03-R14", Title: "shared maps are not written under a read lock (fatal, unrecoverable)", Floor: 1, Run: noWritesUnderReadLock},
 		},
 	})
 }
